@@ -75,7 +75,7 @@ CHECKS = {
    note='Delay selection mode 2 (pseudo-random per gate) and sd > 0 outside the claim. WaveSim part on circuits with <= 3 gates and one transition per input. Structure enumerated.'),
  'C15': dict(engine='E2-symx', category='model_checking', design_ref='DESIGN.md §2.4, §5 C15',
    technique='forking symbolic execution of the real interpret/mvarray/mv_str on symbolic characters; symbolic bit-vector contents through the real mv_to_bp/bp_to_mv/packbits/unpackbits with numpy bit-packing stubs; the real popcount executed on arrays of symbolic uint8 elements (z3 bit-vectors)',
-   text='Every path of the alias matching for symbolic characters (strings up to length 2/3 fully symbolic, one symbolic character at every position of longer strings) is compared with the documented alias table and rendered back; '
+   text='Every path of the alias matching for symbolic characters (strings up to length 2/3 fully symbolic, one symbolic character at every position of longer strings, > 2-D inputs given as groups of strings with one and two patterns per group) is compared with the documented alias table and rendered back; '
         'mv<->bp round trips, axis convention and padding lanes, and the generic pack/unpack helpers for eight integer dtypes are decided by z3 per output bit for all contents; popcount = number of one bits, decided by z3 on the term the real function builds (one arbitrary byte per query, neighbours over four corner values).',
    note='np.packbits / np.unpackbits / ndarray.view are stubs written from the numpy documentation and differentially validated on every run; shapes, pattern counts and dtypes (incl. non-native byte order, round trip only) enumerated. Sizes beyond the symbolic bound (popcount up to 2^22+3 bytes, mv/bp conversion of > 2^20 values): concrete differentials, not solver verdicts.'),
  'C20': dict(engine='E2-symx', category='model_checking', design_ref='DESIGN.md §5 C20, §7',
@@ -102,7 +102,7 @@ CHECKS = {
  'C11': dict(engine='E1-lanes behind the real parsers', category='model_checking', design_ref='DESIGN.md §5 C11, §7',
    technique='rendered netlist texts (enumerated) through the real Verilog/bench parsers and resolve_tlib_cells, then symbolic execution of the real LogicSim and z3 equality with the ground-truth function of the described netlist',
    text='For each ground-truth netlist (buses with ascending/descending/one-bit ranges, bit selects, concatenations, sized constants, chained assigns, multi-output cells, flip-flops, escaped identifiers) and each textual rendering '
-        '(declaration styles, statement order, pin order, comments, attributes, whitespace, both branchforks settings) z3 proves that every output port - compared by position - and every state element computes the described function for all stimuli; '
+        '(declaration styles, port nets additionally declared as wire before or after their direction, statement order, pin order, comments, attributes, whitespace, both branchforks settings) z3 proves that every output port - compared by position - and every state element computes the described function for all stimuli; '
         'bench and Verilog renderings of the same netlist are both proved equal to the ground truth, hence equivalent; branchforks only adds forks.',
    note='The text dimension is enumerated by the renderer in checks/c11.py (trusted with its evaluator and the C19 data-sheet table). Positional pin connections and hierarchical Verilog outside the claim.'),
  'C18': dict(engine='E2-symx', category='model_checking', design_ref='DESIGN.md §5 C18, §7',
